@@ -92,6 +92,9 @@ SOURCE_FUNCS = [("mesa/agent.py", "AgentSet.do"), ("mesa/agent.py", "AgentSet.sh
                 ("mesa/model.py", "Model.register_agent"), ("mesa/model.py", "Model.deregister_agent")]
 NCLS = 3
 MAXCREATE = 3
+SCALE_MAX = 5000          # "createn": populations of the scale stream
+SCALE_MODEL_MAX = 300     # above this population a history is run on the implementation + oracle only (the model's sweeps are quadratic)
+SCALE_SIZES = [255, 256, 257, 512, 513, 1024, 1025, 2048, 2049]
 KINDS = ["do", "shuffle_do", "map"]
 
 
@@ -276,6 +279,63 @@ def _nested_sweep():
                             yield {"ops": setup + [["activate", KINDS[j % 3], "name" if j % 2 else "callable", [["all"], ["user", 0]][j % 2], sc, [], [], sc2]]}
 
 
+def _scale_case(rng, n, kind, extra=True):
+    """a population of n agents (two classes; created by two ops, so the Gallina text stays short), a few of them also referenced
+    by the program, one activation of `kind` over model.agents with a churn script of ~16 agents: remove a later agent / an
+    earlier agent / self / a referenced one, create agents; then (extra) a second activation over a by-type set"""
+    n1 = n // 3
+    ops = [["act", ["createn", 0, n - n1, False]], ["act", ["createn", 1, n1, False]]]
+    held = rng.sample(range(1, n + 1), 3)
+    ops += [["act", ["add", h]] for h in held]
+    script = []
+    who = rng.sample(range(1, n + 1), min(n, 16))
+    for a in who:
+        r = rng.random()
+        if r < 0.45:
+            t = rng.randint(a + 1, n) if a < n else a           # a later agent (in set order; under shuffle_do: any)
+            acts = [["rm", t, False]]
+            if rng.random() < 0.5:
+                acts.append(["rm", rng.randint(1, n), False])
+        elif r < 0.6:
+            acts = [["rm", rng.randint(1, a), False]]            # an earlier agent (or itself)
+        elif r < 0.7:
+            acts = [["rmself", False]]
+        elif r < 0.8:
+            acts = [["rm", rng.choice(held), rng.random() < 0.5]]
+        elif r < 0.9:
+            acts = [["create", rng.randrange(NCLS), 2, False]]
+        else:
+            acts = [["rm", rng.randint(1, n), True], ["drop", rng.randint(1, n)]]
+        script.append([a, acts])
+    args, kwargs = [rng.randint(0, 9)], []
+    if kind.startswith("group:"):
+        _, inner, outer = kind.split(":")
+        ops.append(["group", inner, outer, rng.choice(["attr", "callable"]), ["all"], rng.choice([1, 2, 3]), script, args, kwargs, []])
+    else:
+        ops.append(["activate", kind, rng.choice(["name", "callable"]), ["all"], script, args, kwargs, []])
+    if extra:
+        ops.append(["activate", rng.choice(["shuffle_do", "do", "map"]), "name", ["type", 0],
+                    [[a, [["rm", min(n, a + rng.randint(1, 40)), False]]] for a in rng.sample(range(1, n + 1), 6)], [], [], []])
+    return {"ops": ops}
+
+
+SCALE_KINDS = ["shuffle_do", "do", "map", "copy_do", "copy_shuffle_do", "shuffle_then_do",
+               "group:shuffle_do:do", "group:do:map", "group:map:map-callable", "group:shuffle_do:do-callable"]
+
+
+def _scale_cases(rng, tier, broken=False):
+    """populations crossing 255/256/257/512/1024/2048 (CPython small-int cache, block sizes of 'optimised' loops) under churn.
+    Up to SCALE_MODEL_MAX agents the history is also evaluated by the Gallina model; above, implementation + oracle only."""
+    if tier == "quick" and not broken:
+        # two histories that the model evaluates too (one activation each), the rest implementation + oracle only
+        plan = [(256, "shuffle_do", False), (rng.choice([255, 257]), rng.choice(SCALE_KINDS), False),
+                (rng.choice([512, 513]), "shuffle_do", True), (rng.choice([512, 1024, 1025]), rng.choice(SCALE_KINDS), True),
+                (rng.choice([1024, 1025]), "shuffle_do", True), (rng.choice([2048, 2049]), rng.choice(SCALE_KINDS), True)]
+    else:
+        plan = [(n, k, True) for n in SCALE_SIZES for k in SCALE_KINDS for _ in range(1 if n > 1025 else 2)]
+    return [_scale_case(rng, n, k, extra) for n, k, extra in plan]
+
+
 def _kwname_sweep(names=None):
     """every keyword name x every way of activating (3 agents, one positional and one keyword argument, no churn)"""
     setup = [["act", ["create", i % 2, 1, False]] for i in range(3)]
@@ -309,6 +369,7 @@ def gen_cases(rng, tier):
     cases = []
     # every one-act script over sets of size <= 2 (3 thorough), all kinds
     cases += list(_exhaustive(3 if tier == "quick" else 4, KINDS, True))
+    scale = _scale_cases(rng, tier)
     kws = list(_kwname_sweep())
     cases += kws if tier != "quick" else kws[rng.randrange(4)::4]
     nest = list(_nested_sweep())
@@ -336,6 +397,9 @@ def gen_cases(rng, tier):
                                                                                       ["rm", 1000 + rng.randint(1, nf), rng.random() < 0.5], ["nop"]])]]]
             ops.append(o)
         cases.append({"ops": ops})
+    # the scale stream, spread over the case files (each file is evaluated by its own coqc; the corpus shifts positions a little)
+    for j, c in enumerate(scale):
+        cases.insert(min(len(cases), j * 250 + 7), c)
     # abandoned iterators (oracle only): dead references stay in the key list until the iterator goes away
     for i in range(40 if tier == "quick" else 1000):
         c = _rand_case(rng, big=False)
@@ -352,6 +416,10 @@ def enumerate_cases(tier, broken=False):
         return  # gen_cases already ran (and compared with the model) every script over sets of size <= 4
     yield from _exhaustive(4, KINDS, True)
     yield from _kwname_sweep()
+    if broken:
+        import random as _random
+
+        yield from _scale_cases(_random.Random(4242), "thorough", broken=True)
 
 
 # ------------------------------------------------------------------ implementation side
@@ -508,9 +576,9 @@ class _Run:
                 if keep:
                     self.ext.append(tgt)
             del tgt
-        elif k == "create":
+        elif k in ("create", "createn"):
             _, c, n, keep = a
-            for _ in range(max(0, min(int(n), MAXCREATE))):
+            for _ in range(max(0, min(int(n), MAXCREATE if k == "create" else SCALE_MAX))):
                 ag = self.env["classes"][c % NCLS](self.model)
                 uid = ag._hid
                 self.wv[uid] = ag
@@ -1236,6 +1304,8 @@ def _run_impl(env, case):
     env["mesa"].Agent._ids.pop(run.model, None)
     for other in run.models:
         env["mesa"].Agent._ids.pop(other, None)
+    if sum(min(int(o[1][2]), SCALE_MAX) for o in case["ops"] if o[0] == "act" and o[1][0] == "createn") > SCALE_MODEL_MAX:
+        model_ok = False
     return {"obs": obs, "failures": failures, "ops_for_model": ops_for_model, "model": model_ok}
 
 
@@ -1250,6 +1320,8 @@ def _act(a, level=0):
         return f"RemoveId {L.z(a[1])} {L.b(a[2])}"
     if k == "create":
         return f"Create {L.z(a[1] % NCLS)} {L.z(max(0, min(int(a[2]), MAXCREATE)))} {L.b(a[3])}"
+    if k == "createn":
+        return f"Create {L.z(a[1] % NCLS)} {L.z(max(0, min(int(a[2]), SCALE_MAX)))} {L.b(a[3])}"
     if k == "drop":
         return f"DropRef {L.z(a[1])}"
     if k == "add":
